@@ -215,7 +215,8 @@ def listGet {α : Type} (l : List α) (i : Nat) : Except Err α :=
 /-- lines 126-131 below the first index: `attr = attr.attrs[i]` … `attr.extends(*new_attrs)`.
     `attr.attrs` of a reflection without own attributes falls through to the origin's attribute objects
     (reflection.py:391); extending one of those would mutate a shared table entry — outside the model
-    (`Err.sharedEntry`, never produced by the real code; the driver prints `out-of-model`). -/
+    (`Err.sharedEntry`, never produced by the real code; the driver prints `out-of-model`). `C14.rebuild_isolated`: a prefix-closed
+    dict — every exported one — never gets here. -/
 def extendNode (new : List RNode) : Path → RNode → Except Err RNode
   | [], .mk k own inh =>
     -- Reflection.extends (reflection.py:408-412)
@@ -418,7 +419,8 @@ def orderList (look : Str → Option Forest) (sub : Forest → List Str → List
 end
 
 /-- the walk over a list of reflections with `fuel` nesting levels of entry expansion left. Every expansion adds a new
-    table key to `resolving`, so `number of table keys + 1` levels are never used up (`orderKeys` starts with that). -/
+    table key to `resolving`, so `number of table keys + 1` levels are never used up (`orderKeys` starts with that;
+    `C14.order_fuel` proves it for every table, also with class entries that refer to themselves). -/
 def orderFuel (look : Str → Option Forest) (fm : Option Str) : Nat → Forest → List Str → List Str → List Str
   | 0, _, orders, _ => orders
   | n + 1, f, orders, res => orderList look (orderFuel look fm n) fm f orders res
@@ -462,5 +464,141 @@ def importJson (W : World) : Table → List (Str × Row) → Except Err Table
     match deserialize W t row with
     | .error e => .error e
     | .ok s => importJson W ((t.set k s).onComplete (modOf k)) rest
+
+
+/-! ## object identity: shared reflection objects, `to_temporary`, writes through a copy
+
+  A reflection object may sit in several slots of an attribute tree (`tuple[T, T]` resolved with one argument object).
+  `IAttr` carries the identity of the object (`id`); the same id in two slots = the same Python object.
+  Modelled code: rogw/tranp/lang/sequence.py:32-61 (`expand` never looks at identity), :64-88 (`update`: the write
+  `getattr(entry, 'attrs')[i] = value` changes the attribute list of ONE object, visible through every slot that holds it),
+  rogw/tranp/semantics/reflection/reflection.py:116-124 (`stack`: a new object), :170-178 (`to_temporary`: a new object per
+  node, at every depth). -/
+
+inductive IAttr where
+  | mk (id : Nat) (key : Str) (attrs : List IAttr)
+deriving Repr, Inhabited
+
+abbrev IForest := List IAttr
+
+mutual
+def IAttr.decEq : (a b : IAttr) → Decidable (a = b)
+  | .mk i1 k1 c1, .mk i2 k2 c2 =>
+    if h : i1 = i2 ∧ k1 = k2 then
+      match IAttr.decEqList c1 c2 with
+      | isTrue h2 => isTrue (by rw [h.1, h.2, h2])
+      | isFalse h2 => isFalse (by intro h'; injection h' with _ _ h3; exact h2 h3)
+    else isFalse (by intro h'; injection h' with h3 h4 _; exact h ⟨h3, h4⟩)
+def IAttr.decEqList : (a b : List IAttr) → Decidable (a = b)
+  | [], [] => isTrue rfl
+  | [], _ :: _ => isFalse (by intro h; cases h)
+  | _ :: _, [] => isFalse (by intro h; cases h)
+  | x :: xs, y :: ys =>
+    match IAttr.decEq x y with
+    | isTrue h1 =>
+      match IAttr.decEqList xs ys with
+      | isTrue h2 => isTrue (by rw [h1, h2])
+      | isFalse h2 => isFalse (by intro h'; injection h' with _ h3; exact h2 h3)
+    | isFalse h1 => isFalse (by intro h'; injection h' with h3 _; exact h1 h3)
+end
+
+instance : DecidableEq IAttr := IAttr.decEq
+
+mutual
+/-- forget identity: what `.types.fullyname` / `.attrs` show -/
+def eraseN : IAttr → Attr
+  | .mk _ k cs => .mk k (eraseL cs)
+def eraseL : List IAttr → List Attr
+  | [] => []
+  | a :: rest => eraseN a :: eraseL rest
+end
+
+mutual
+/-- the objects of a tree -/
+def idsN : IAttr → List Nat
+  | .mk i _ cs => i :: idsL cs
+def idsL : List IAttr → List Nat
+  | [] => []
+  | a :: rest => idsN a ++ idsL rest
+end
+
+mutual
+/-- `seqs.expand` on objects with identity (the code never asks for it) -/
+def expandINode (p : Path) : IAttr → Flat
+  | .mk _ k cs => expandIElems p 0 cs [(p, k)]
+def expandIElems (p : Path) (i : Nat) : List IAttr → Flat → Flat
+  | [], entries => entries
+  | a :: rest, entries => expandIElems p (i + 1) rest (dictMerge entries (expandINode (p ++ [i]) a))
+end
+
+def expandI (f : IForest) : Flat := expandIElems [] 0 f []
+
+mutual
+/-- NOT the code: `expand` with a visited-set of object ids ("expand the attributes of an object once"), the shape of a
+    seeded mutation; kept as the counterexample `C14.visited_counterexample` -/
+def expandVNode (p : Path) : IAttr → List Nat → Flat × List Nat
+  | .mk i k cs, vis => if vis.contains i then ([(p, k)], vis) else expandVElems p 0 cs [(p, k)] (i :: vis)
+def expandVElems (p : Path) (i : Nat) : List IAttr → Flat → List Nat → Flat × List Nat
+  | [], entries, vis => (entries, vis)
+  | a :: rest, entries, vis =>
+    let r := expandVNode (p ++ [i]) a vis
+    expandVElems p (i + 1) rest (dictMerge entries r.1) r.2
+end
+
+def expandVisited (f : IForest) : Flat := (expandVElems [] 0 f [] []).1
+
+mutual
+/-- `to_temporary` (reflection.py:170-178): `new = self.stack()` is a new object (`n`), and so is the copy of every attribute,
+    at every depth; returns the next unused id -/
+def toTemp : IAttr → Nat → IAttr × Nat
+  | .mk _ k cs, n =>
+    let r := toTempL cs (n + 1)
+    (.mk n k r.1, r.2)
+def toTempL : List IAttr → Nat → List IAttr × Nat
+  | [], n => ([], n)
+  | a :: rest, n =>
+    let r1 := toTemp a n
+    let r2 := toTempL rest r1.2
+    (r1.1 :: r2.1, r2.2)
+end
+
+/-- `any(isinstance(in_attr.types, TemplateClass) for in_attr in attr.attrs)` -/
+def hasTemplateChild (isTV : Str → Bool) : IAttr → Bool
+  | .mk _ _ cs => cs.any (fun c => match c with | .mk _ k _ => isTV k)
+
+mutual
+/-- NOT the code: `to_temporary` that copies an attribute only if one of its DIRECT children is a type variable and shares it
+    otherwise (a seeded mutation); kept as the counterexample `C14.shallow_temporary_counterexample` -/
+def toTempShallow (isTV : Str → Bool) : IAttr → Nat → IAttr × Nat
+  | .mk _ k cs, n =>
+    let r := toTempShallowL isTV cs (n + 1)
+    (.mk n k r.1, r.2)
+def toTempShallowL (isTV : Str → Bool) : List IAttr → Nat → List IAttr × Nat
+  | [], n => ([], n)
+  | a :: rest, n =>
+    let r1 := if hasTemplateChild isTV a then toTempShallow isTV a n else (a, n)
+    let r2 := toTempShallowL isTV rest r1.2
+    (r1.1 :: r2.1, r2.2)
+end
+
+mutual
+/-- the write of `seqs.update` (sequence.py:83-88) seen from a tree: the attribute list of object `target` gets `v` in slot `j`,
+    in every slot of the tree that holds that object -/
+def setSlot (target j : Nat) (v : IAttr) : IAttr → IAttr
+  | .mk i k cs =>
+    let cs' := setSlotL target j v cs
+    .mk i k (if i = target then cs'.set j v else cs')
+def setSlotL (target j : Nat) (v : IAttr) : List IAttr → List IAttr
+  | [] => []
+  | a :: rest => setSlot target j v a :: setSlotL target j v rest
+end
+
+/-- the object found by the index walk of `seqs.update` below a list of objects -/
+def objectAt : List IAttr → Path → Option IAttr
+  | _, [] => none
+  | f, [i] => f[i]?
+  | f, i :: rest => match f[i]? with
+    | some (.mk _ _ cs) => objectAt cs rest
+    | none => none
 
 end Tranp.SymbolJson
